@@ -193,6 +193,26 @@ func RouteSpecs(thorough bool) []*spec.Spec {
 			Services: []*spec.Service{spec.Svc("SearchService", "/api/v1", spec.RPC("Search", "SearchReq", "Out", verb, "/search"))}}
 		out = append(out, withCell(spec.One("route_bodyverb_query_"+lower(verb), f), "route/unit=body_verb_query_only,verb="+verb, "extended", "valid", "route"))
 	}
+	{
+		// K: a file whose only URL-bound fields are query-annotated fields of RPCs WITHOUT an http option (default routes): the
+		// annotation is honoured there by both servers and both clients
+		f := &spec.File{Messages: out1(spec.M("SearchReq", spec.F("q", "string").QReq("q"), spec.F("limit", "int32").Q("limit"), spec.F("note", "string")),
+			spec.M("CountReq", spec.F("since", "int64").Q("since"), spec.F("exact", "bool").Q(""), spec.F("note", "string"))),
+			Services: []*spec.Service{spec.Svc("UnconfService", "/uq", spec.RPCDefault("UnconfSearch", "SearchReq", "Out"), spec.RPCDefault("UnconfCount", "CountReq", "Out"))}}
+		out = append(out, withCell(spec.One("route_query_default", f), "route/unit=query_on_default_routes", "extended", "valid", "route"))
+	}
+	{
+		// L: literal path segments spelled like a path variable of the same template, before and after the variable, in the base
+		// path and in the method path - each variable is the segment that holds its placeholder
+		f := &spec.File{Messages: out1(spec.M("OrgRepo", spec.F("org", "string"), spec.F("repo", "string"), spec.F("note", "string").Q("")),
+			spec.M("ProjectRef", spec.F("project", "string"), spec.F("note", "string")),
+			spec.M("IdRef", spec.F("id", "string"), spec.F("note", "string"))),
+			Services: []*spec.Service{
+				spec.Svc("OrgService", "/api/v1", spec.RPC("GetRepo", "OrgRepo", "Out", "GET", "/org/{org}/repo/{repo}"), spec.RPC("PutId", "IdRef", "Out", "PUT", "/{id}/id"),
+					spec.RPC("PostIdTwice", "IdRef", "Out", "POST", "/id/{id}/id")),
+				spec.Svc("ProjectService", "/project", spec.RPC("Build", "ProjectRef", "Out", "POST", "/{project}/builds"))}}
+		out = append(out, withCell(spec.One("route_literal_like_variable", f), "route/unit=literal_named_like_variable", "extended", "valid", "route"))
+	}
 	return out
 }
 
